@@ -18,7 +18,7 @@ type c18Case struct {
 	N       int   `json:"n"`
 	Issuer  []int `json:"issuer"`         // -1 none, 0..n-1 entity, n = undefined alias
 	AMode   []int `json:"amode"`          // 0 file-derived, 1 explicit unique, 2 explicit = next entity's alias, 3 explicit = next entity's file stem
-	Layout  int   `json:"layout"`         // 0 flat, 1 own sub-directory, 2 two levels, 3 same base name in different directories, 4 entities 0 and 1 share directory and stem but differ in suffix
+	Layout  int   `json:"layout"`         // 0 flat, 1 own sub-directory, 2 two levels, 3 same base name in different directories, 5 dotted names, 6/7 same base name at growing depth, 4 entities 0 and 1 share directory and stem but differ in suffix
 	Suffix  int   `json:"suffix"`         // index into c18Suffixes (rotated per entity)
 	CLI     bool  `json:"cli"`            // additionally replay on the binary
 	Foreign bool  `json:"foreign"`        // place the foreign files
@@ -43,6 +43,12 @@ func c18Path(c *c18Case, i int) string {
 	case 5:
 		// dots in directory and file names: alias and artifact path are cut at the LAST dot
 		return fmt.Sprintf("conf.d/v1.2/e%d.prod.v2%s", i, suf)
+	case 6:
+		// the same file name at growing depth, each path the tail of the next, the shallow one visited first
+		return []string{"node", "x/node", "y/x/node", "z/y/x/node", "zz/z/y/x/node", "zzz/zz/z/y/x/node"}[i] + suf
+	case 7:
+		// the same file name at growing depth, the deep ones visited first
+		return []string{"node", "a/node", "a/b/node", "a/b/c/node", "a/b/c/d/node", "a/b/c/d/e/node"}[i] + suf
 	case 4:
 		if i <= 1 {
 			// same directory, same stem, different suffix
@@ -73,6 +79,19 @@ var c18Foreign = map[string]string{
 	"sub/.hidden.yml.swp": "version: 1\nsubject: CN=Swap File\n",
 	"almost.yamlx":        "version: 1\nsubject: CN=Almost\n",
 	"yaml":                "version: 1\nsubject: CN=No Dot\n",
+	// hidden files and directories next to configurations (they sort in front of them)
+	".gitignore":        "*.pem\n",
+	".DS_Store":         "\x00\x00\x00\x01Bud1",
+	".git/config":       "[core]\n\tbare = false\n",
+	"d0/.gitkeep":       "",
+	"d1/.editorconfig":  "root = true\n",
+	"a/.hidden":         "x\n",
+	"a/b0/.gitkeep":     "",
+	"conf.d/v1.2/.keep": "",
+	"conf.d/.directory": "[Desktop Entry]\n",
+	"shared/.gitignore": "*.pem\n",
+	"x/.keep":           "",
+	"y/x/.keep":         "",
 }
 
 // odd states of an existing artifact file; none of them makes a hierarchy invalid
@@ -212,7 +231,7 @@ func c18Enumerate(tier string, yield func(any)) {
 		for {
 			am := make([]int, n)
 			for {
-				for _, layout := range []int{0, 1, 2, 3, 5} {
+				for _, layout := range []int{0, 1, 2, 3, 5, 6, 7} {
 					allZero := true
 					for _, m := range am {
 						if m != 0 {
@@ -492,7 +511,7 @@ func init() {
 	register(&engine.Check{
 		ID:    "C18",
 		Level: "model_checking",
-		Rule: "every issuer function issuer:[n]->{none,0..n-1,undefined} for n<=4 (quick) / n<=6 (thorough); for n<=3 additionally every alias-mode vector in {file-derived, explicit unique, explicit = next entity's alias, explicit = next entity's file stem}^n x 5 directory layouts (incl. dots in directory and file names) and 6 suffix/letter-case variants x 4 layouts; for n in {2,3} every issuer function with two config files sharing directory and stem under 6 suffix pairs (alias collision); foreign files present; for n<=3 also with entity 0's artifact file in five odd states (hash line that is not base64 or too short or unterminated, empty file, plain text), which must not change the verdict, and (command line) with entity 0's configuration file being a symbolic link to a file kept elsewhere. " +
+		Rule: "every issuer function issuer:[n]->{none,0..n-1,undefined} for n<=4 (quick) / n<=6 (thorough); for n<=3 additionally every alias-mode vector in {file-derived, explicit unique, explicit = next entity's alias, explicit = next entity's file stem}^n x 7 directory layouts (incl. dots in directory and file names, and the same file name at the top level and nested ever deeper so that one path is the tail of another) and 6 suffix/letter-case variants x 4 layouts; for n in {2,3} every issuer function with two config files sharing directory and stem under 6 suffix pairs (alias collision); foreign files present (other suffixes, unparseable text, no version key, configuration suffix inside the name, hidden files and a hidden directory next to the configurations); for n<=3 also with entity 0's artifact file in five odd states (hash line that is not base64 or too short or unterminated, empty file, plain text), which must not change the verdict, and (command line) with entity 0's configuration file being a symbolic link to a file kept elsewhere. " +
 			"Each case builds the directory, runs Open+Plan+BulkUpdate on simfs (and the built CLI binary for the flagged subset) and compares with the model valid <=> all issuers defined, acyclic, aliases unique; an invalid directory is run again with every generate-flag off and with generate-all alone (still refused, nothing written). non-trivial = distinct (issuer function, alias modes, layout, suffix) case that reached the verdict comparison",
 		Bound:       map[string]string{"entities": "quick<=4, thorough<=6", "alias/layout/suffix variants": "n<=3"},
 		Assumptions: []string{"file stems are distinct per directory and non-empty (a.yaml + a.yml sharing a.pem is outside the statement's quantifier)", "keys are P-224 to keep generation cheap; C18 does not depend on the key type"},
